@@ -12,7 +12,7 @@ LEVEL = "exploration"
 RULE = ("same configuration space as C01; each configuration is differentiated on two independent (data, upstream-"
         "gradient) draw pairs plus a third run with draw A's data and draw B's upstream gradient; per differentiable "
         "input the gradient is fitted against the reference autograd gradient (sum-reduced loss for mean-reduced "
-        "losses). Non-trivial = at least one input has a non-zero reference gradient; distinct = (function, constraint, "
+        "losses). Argument forms: non-contiguous inputs, upstream gradients that are expanded (stride 0, as from y.sum(-1)) or strided, one differentiable input without requires_grad; the upstream gradient tensor is compared bit for bit before/after backward. Non-trivial = at least one input has a non-zero reference gradient; distinct = (function, constraint, "
         "dtype, shapes) signature. 'prim' cases drive scale_fwd / scale_bwd directly with factors in [-1e3,1e3].")
 ASSUMPTIONS = ["PyTorch autograd of the reference op is correct", "float64 noise < 1e-10 relative"]
 IMPORTS = ["unit_scaling.functional", "unit_scaling.scale", "unit_scaling.core.functional"]
